@@ -2,8 +2,10 @@ package props
 
 import (
 	"context"
+	"crypto/sha256"
 	"database/sql"
 	"database/sql/driver"
+	"encoding/hex"
 	"encoding/json"
 	"fmt"
 	"io"
@@ -77,6 +79,9 @@ type c17Op struct {
 func (o c17Op) String() string {
 	if o.Op == "open" {
 		return fmt.Sprintf("Open(f%d%s)", o.DSN/2, map[int]string{0: "", 1: "+opts"}[o.DSN%2])
+	}
+	if o.Op == "openq" {
+		return fmt.Sprintf("Open+query(f%d%s as h%d)", o.DSN/2, map[int]string{0: "", 1: "+opts"}[o.DSN%2], o.H)
 	}
 	if o.Op == "swap" {
 		return "replace-file(f0)"
@@ -302,6 +307,12 @@ func c17Play(ctx *rt.Ctx, c c17Case, all bool) (viol string, sigOverride string,
 		return "", ""
 	}
 	for n, o := range c.Ops {
+		if o.Op == "openq" { // macro: open a handle and use it at once (sql.Open alone does not connect)
+			if v, sig := step(n, c17Op{Op: "open", DSN: o.DSN, H: o.H}); v != "" {
+				return v, sig, ""
+			}
+			o = c17Op{Op: "query", H: o.H}
+		}
 		v, sig := step(n, o)
 		if v != "" {
 			return v, sig, ""
@@ -346,7 +357,7 @@ func c17Enabled(c c17Case, o c17Op) bool {
 	live := map[int]bool{}
 	for _, p := range c.Ops {
 		switch p.Op {
-		case "open":
+		case "open", "openq":
 			live[p.H] = true
 		case "close":
 			delete(live, p.H)
@@ -362,7 +373,7 @@ func c17Enabled(c c17Case, o c17Op) bool {
 			}
 		}
 		return len(live) == 0
-	case "open":
+	case "open", "openq":
 		return !live[o.H] && len(live) < 3 && (o.H == 0 || live[o.H-1] || liveCountBelow(live, o.H))
 	case "query2":
 		return live[o.H] && c.Pool == 0
@@ -417,6 +428,7 @@ type c17LevelOut struct {
 	Ops      []c17Op `json:"ops"`
 	Key      string  `json:"key"`
 	Conflict bool    `json:"conflict,omitempty"`
+	Show     string  `json:"show,omitempty"` // readable state of a few transitions (evidence samples)
 }
 
 // c17Unmerged: every history to depth 5 over a reduced alphabet (3 DSNs, <=2 handles, query/close), WITHOUT merging
@@ -426,7 +438,7 @@ func c17Unmerged(ctx *rt.Ctx, pool int) []*rt.Violation {
 	var alpha []c17Op
 	for h := 0; h < 2; h++ {
 		for _, d := range []int{0, 1, 2} {
-			alpha = append(alpha, c17Op{Op: "open", DSN: d, H: h})
+			alpha = append(alpha, c17Op{Op: "open", DSN: d, H: h}, c17Op{Op: "openq", DSN: d, H: h})
 		}
 		alpha = append(alpha, c17Op{Op: "query", H: h}, c17Op{Op: "close", H: h})
 	}
@@ -504,7 +516,15 @@ func c17LevelWorker(ctx *rt.Ctx, a c17Args) []*rt.Violation {
 			if key == "" {
 				key = c.sig() // cannot bind the driver's private state: no merging
 			}
-			outs = append(outs, c17LevelOut{Ops: c.Ops, Key: key})
+			h := sha256.Sum256([]byte(key)) // the master keeps hashes: a state dump can be kilobytes long
+			lo := c17LevelOut{Ops: c.Ops, Key: hex.EncodeToString(h[:12])}
+			if len(c.Ops) == 4 && len(outs)%97 == 0 {
+				lo.Show = key
+				if len(lo.Show) > 600 {
+					lo.Show = lo.Show[:600] + "..."
+				}
+			}
+			outs = append(outs, lo)
 		}
 		if ctx.Expired() {
 			ctx.Cov.Cap(fmt.Sprintf("pool=%d: deadline at depth %d", a.Pool, len(h)+1))
@@ -554,8 +574,8 @@ func c17SeqBFS(ctx *rt.Ctx, pool, maxDepth int, k0 string) []*rt.Violation {
 						seen[lo.Key] = true
 						ctx.Cov.Add("states", 1)
 						next = append(next, lo.Ops)
-						if depth == 4 {
-							ctx.Cov.Sample(2, map[string]any{"history": c17Case{Pool: pool, Ops: lo.Ops}.sig(), "state": lo.Key})
+						if depth == 4 && lo.Show != "" {
+							ctx.Cov.Sample(2, map[string]any{"history": c17Case{Pool: pool, Ops: lo.Ops}.sig(), "state": lo.Show})
 						}
 					}
 					delete(o.Res.Cov.Notes, "level_out")
@@ -583,6 +603,11 @@ func c17SeqBFS(ctx *rt.Ctx, pool, maxDepth int, k0 string) []*rt.Violation {
 		}
 		frontier = next
 		ctx.Cov.Max("max_depth", int64(depth))
+		if len(frontier) > 30000 {
+			// (seen on changed code whose driver keeps history-dependent state: nothing merges any more)
+			ctx.Cov.Cap(fmt.Sprintf("pool=%d: %d unmerged states at depth %d: search stopped", pool, len(frontier), depth))
+			return vs
+		}
 	}
 	if len(frontier) > 0 {
 		ctx.Cov.Cap(fmt.Sprintf("pool=%d: depth bound %d reached with %d states on the frontier", pool, maxDepth, len(frontier)))
